@@ -208,6 +208,16 @@ def audit(ctx, theorem_files, extra_grep_files=()):
             ctx.proof['theorems'][n] = ax
     for f, n in names:
         ctx.proof['theorems'].setdefault(n, None)
+    if ctx.tier == 'thorough' and ok:
+        # independent re-check of the compiled modules with the toolchain's leanchecker
+        try:
+            p = subprocess.run(['lake', 'env', 'leanchecker'] + mods, cwd=LEAN, capture_output=True, text=True, timeout=1800)
+            ctx.extra['leanchecker'] = dict(modules=mods, exit=p.returncode, tail=(p.stdout + p.stderr)[-500:])
+            if p.returncode != 0:
+                ok = False
+                ctx.proof['build_log'] = 'leanchecker rejected: ' + (p.stdout + p.stderr)[-2000:]
+        except subprocess.TimeoutExpired:
+            ctx.extra['leanchecker'] = dict(modules=mods, exit='timeout')
     disc = [n for n, ax in ctx.proof['theorems'].items() if ax is not None and set(ax) <= ALLOWED_AXIOMS]
     ctx.proof['discharged'] = len(disc) if not ctx.proof['grep_hits'] else 0
     return ok and not ctx.proof['grep_hits'] and len(disc) == len(names)
